@@ -30,6 +30,7 @@ func init() {
 func runC06(w *World, r *Report) {
 	hrQueueSizeParams(w, r, "R8")
 	hrQueuedRequestIdentity(w, r, "R8")
+	hrWatcherAlwaysStarts(w, r, "R7")
 	hrOutputParamsWrittenInPlace(w, r, "R8")
 	hrEnvOfItsOwn(w, r, "R8")
 	hrTimeoutAboveTTL(w, r, "R8")
